@@ -14,10 +14,10 @@ use std::panic::{catch_unwind, AssertUnwindSafe};
 use std::time::Duration;
 
 #[derive(Clone, Debug)]
-pub struct Case { pub dom: String, pub user: String, pub pw: String, pub from_hash: bool, pub ra: bool, pub id: usize, pub flags: u32, pub sc: [u8; 8], pub ti: Vec<u8>, pub reply: String }
+pub struct Case { pub dom: String, pub user: String, pub pw: String, pub from_hash: bool, pub ra: bool, pub id: usize, pub flags: u32, pub sc: [u8; 8], pub ti: Vec<u8>, pub reply: String, pub reply1: String }
 
 #[derive(Default, Debug)]
-pub struct SrvOut { pub m1: Vec<u8>, pub m2: Vec<u8>, pub r2: Vec<u8>, pub m3: Vec<u8>, pub k: Option<Vec<u8>>, pub client_pk_ok: Option<bool>, pub honest_pka: Vec<u8>, pub creds: Option<Vec<u8>>, pub note: String }
+pub struct SrvOut { pub r1: Vec<u8>, pub faulted1: bool, pub m1: Vec<u8>, pub m2: Vec<u8>, pub r2: Vec<u8>, pub m3: Vec<u8>, pub k: Option<Vec<u8>>, pub client_pk_ok: Option<bool>, pub honest_pka: Vec<u8>, pub creds: Option<Vec<u8>>, pub note: String }
 
 fn flip(b: &mut Vec<u8>, bit: usize) { if bit / 8 < b.len() { b[bit / 8] ^= 1 << (bit % 8); } }
 
@@ -43,6 +43,10 @@ fn build_reply(recipe: &str, k: &[u8], spk: &[u8], spk_other: &[u8], client_pka:
         "unsealed" => { let mut v = vec![1, 0, 0, 0, 0, 0, 0, 0, 0, 0, 0, 0, 0, 0, 0, 0]; v.extend(&plus1); ts_request(None, Some(&v), 2) }
         "nopka" => ts_request(None, None, 2),
         "ver" => ts_request(None, Some(&honest_pka), arg.parse().unwrap_or(2)),
+        // BER re-encodings of the honest reply (the proof inside is valid; the encoding is not DER)
+        "ber83in" => { let inner = { let mut v = vec![0x04, 0x83, 0, (honest_pka.len() >> 8) as u8, honest_pka.len() as u8]; v.extend(&honest_pka); v }; let body = { let mut b = der(0xa0, &der(0x02, &[2])); b.extend(der(0xa3, &inner)); b }; der(0x30, &body) }
+        "berindef" => { let mut v = vec![0x30, 0x80]; v.extend(&honest[if honest[1] & 0x80 != 0 { 2 + (honest[1] & 0x7f) as usize } else { 2 }..]); v.extend(&[0, 0]); v }
+        "bercons" => { let h = honest_pka.len() / 2; let inner = { let mut c = der(0x04, &honest_pka[..h]); c.extend(der(0x04, &honest_pka[h..])); der(0x24, &c) }; let body = { let mut b = der(0xa0, &der(0x02, &[2])); b.extend(der(0xa3, &inner)); b }; der(0x30, &body) }
         "longform" => { let body = &honest[4..]; let mut v = vec![0x30, 0x83, 0, (body.len() >> 8) as u8, body.len() as u8]; v.extend(body); v }
         "withnego" => ts_request(Some(&[1, 2, 3]), Some(&honest_pka), 2),
         "raw" => unhex(arg),
@@ -52,7 +56,7 @@ fn build_reply(recipe: &str, k: &[u8], spk: &[u8], spk_other: &[u8], client_pka:
     (r, honest_pka)
 }
 
-fn server(mut raw: UnixStream, id: usize, acc_key: Vec<u8>, chal: Vec<u8>, sc: [u8; 8], recipe: String) -> SrvOut {
+fn server(mut raw: UnixStream, id: usize, acc_key: Vec<u8>, chal: Vec<u8>, sc: [u8; 8], recipe: String, recipe1: String) -> SrvOut {
     let mut out = SrvOut::default();
     raw.set_read_timeout(Some(Duration::from_secs(3))).ok();
     let (ident, spk) = identity(id);
@@ -60,7 +64,21 @@ fn server(mut raw: UnixStream, id: usize, acc_key: Vec<u8>, chal: Vec<u8>, sc: [
     let acceptor = match native_tls::TlsAcceptor::new(ident) { Ok(a) => a, Err(e) => { out.note = format!("acceptor {:?}", e); return out; } };
     let mut tls = match acceptor.accept(raw) { Ok(t) => t, Err(_) => { out.note = "tls accept failed".into(); return out; } };
     out.m1 = match read_der(&mut tls) { Some(m) => m, None => { out.note = "no m1".into(); return out; } };
-    if !write_all(&mut tls, &ts_request(Some(&chal), None, 2)) { out.note = "write chal".into(); return out; }
+    // the first reply (TSRequest carrying the CHALLENGE): honest, or cut / replaced and then silence + close
+    let honest1 = ts_request(Some(&chal), None, 2);
+    let r1: Vec<u8> = if recipe1 == "honest" || recipe1.is_empty() { honest1.clone() }
+        else if let Some(n) = recipe1.strip_prefix("trunc:") { let n: usize = n.parse().unwrap_or(0); honest1[..n.min(honest1.len())].to_vec() }
+        else if let Some(h) = recipe1.strip_prefix("raw:") { unhex(h) } else { vec![] };
+    out.r1 = r1.clone();
+    if r1.is_empty() { let _ = tls.shutdown(); } else if !write_all(&mut tls, &r1) { out.note = "write chal".into(); return out; }
+    if r1 != honest1 {
+        // orderly closure right after the damaged reply: the peer now reads end-of-stream, not an error
+        if !r1.is_empty() { let _ = tls.shutdown(); }
+        let mut buf = [0u8; 4096];
+        loop { match tls.read(&mut buf) { Ok(0) => break, Ok(n) => out.m3.extend_from_slice(&buf[..n]), Err(_) => break } }
+        out.k = Some(vec![0; 16]); out.client_pk_ok = Some(true); out.faulted1 = true;
+        return out;
+    }
     out.m2 = match read_der(&mut tls) { Some(m) => m, None => { out.note = "no m2".into(); return out; } };
     let f = parse_ts_request(&out.m2).unwrap_or_default();
     let auth = f.nego.clone().unwrap_or_default();
@@ -73,9 +91,9 @@ fn server(mut raw: UnixStream, id: usize, acc_key: Vec<u8>, chal: Vec<u8>, sc: [
     out.honest_pka = honest_pka;
     out.r2 = r2.clone();
     if r2.is_empty() { let _ = tls.shutdown(); } else if !write_all(&mut tls, &r2) { out.note = "write reply".into(); return out; }
-    // everything the client sends after the reply
+    // everything the client sends after the reply; if it stays silent, close in an orderly way
     let mut buf = [0u8; 4096];
-    loop { match tls.read(&mut buf) { Ok(0) => break, Ok(n) => out.m3.extend_from_slice(&buf[..n]), Err(_) => break } }
+    loop { match tls.read(&mut buf) { Ok(0) => break, Ok(n) => out.m3.extend_from_slice(&buf[..n]), Err(_) => { let _ = tls.shutdown(); std::thread::sleep(Duration::from_millis(300)); break } } }
     if let Some(f3) = parse_ts_request(&out.m3) { if let Some(ai) = f3.auth_info { if let Some((pt, good)) = seal.unseal(&ai) { if good { out.creds = Some(pt); } } } }
     out
 }
@@ -101,19 +119,25 @@ pub fn run(em: &mut Emitter, c: &Case) {
     let chal = challenge(c.flags, &c.sc, &c.ti, version, 0, 0);
     let (a, b) = UnixStream::pair().expect("socketpair");
     a.set_read_timeout(Some(Duration::from_secs(3))).ok();
-    let (id, sc, recipe, key2, chal2) = (c.id, c.sc, c.reply.clone(), key.clone(), chal.clone());
-    let th = std::thread::spawn(move || server(b, id, key2, chal2, sc, recipe));
+    let (id, sc, recipe, recipe1, key2, chal2) = (c.id, c.sc, c.reply.clone(), c.reply1.clone(), key.clone(), chal.clone());
+    let th = std::thread::spawn(move || server(b, id, key2, chal2, sc, recipe, recipe1));
     let c2 = c.clone();
-    let res = catch_unwind(AssertUnwindSafe(move || -> Result<(), String> {
-        let link = Link::new(Stream::Raw(a)).start_ssl(false).map_err(|e| format!("ssl {:?}", e))?;
-        let mut link = link;
-        let mut ntlm = if c2.from_hash { Ntlm::from_hash(c2.dom.clone(), c2.user.clone(), &nt_hash) } else { Ntlm::new(c2.dom.clone(), c2.user.clone(), c2.pw.clone()) };
-        let r = cssp::cssp_connect(&mut link, &mut ntlm, c2.ra).map_err(|e| format!("{:?}", e));
-        drop(link);
-        r
-    }));
+    // the client runs under a watchdog: a call that neither returns nor fails within the deadline
+    // (a spin on a closed link, say) is reported as such and its thread abandoned
+    let (txr, rxr) = std::sync::mpsc::channel();
+    std::thread::spawn(move || {
+        let res = catch_unwind(AssertUnwindSafe(move || -> Result<(), String> {
+            let link = Link::new(Stream::Raw(a)).start_ssl(false).map_err(|e| format!("ssl {:?}", e))?;
+            let mut link = link;
+            let mut ntlm = if c2.from_hash { Ntlm::from_hash(c2.dom.clone(), c2.user.clone(), &nt_hash) } else { Ntlm::new(c2.dom.clone(), c2.user.clone(), c2.pw.clone()) };
+            let r = cssp::cssp_connect(&mut link, &mut ntlm, c2.ra).map_err(|e| format!("{:?}", e));
+            drop(link);
+            r
+        }));
+        let _ = txr.send(match res { Ok(Ok(())) => "ok", Ok(Err(_)) => "E", Err(_) => "P" });
+    });
+    let status = rxr.recv_timeout(Duration::from_secs(8)).unwrap_or("T");
     let so = th.join().unwrap_or_default();
-    let status = match &res { Ok(Ok(())) => "ok", Ok(Err(_)) => "E", Err(_) => "P" };
     let mut all = so.m1.clone(); all.extend(&so.m2); all.extend(&so.m3);
     let out = format!("{} {}", status, hex(&all));
     // observed pieces for the model
@@ -121,21 +145,23 @@ pub fn run(em: &mut Emitter, c: &Case) {
     let auth = parse_ts_request(&so.m2).and_then(|f| f.nego).unwrap_or_default();
     let cc = if auth.len() >= 64 { let (l, o) = (auth[12] as usize | (auth[13] as usize) << 8, auth[16] as usize | (auth[17] as usize) << 8); if l == 24 && o + 24 <= auth.len() { auth[o + 16..o + 24].to_vec() } else { vec![0; 8] } } else { vec![0; 8] };
     let r2obs = { let r2 = so.r2.clone(); match catch_unwind(move || cssp::read_ts_validate(&r2)) { Ok(Ok(v)) => format!("ok_{}", hex(&v)), Ok(Err(_)) => "E".to_string(), Err(_) => "P".to_string() } };
+    let r1obs = { let r1 = so.r1.clone(); match catch_unwind(move || cssp::read_ts_server_challenge(&r1)) { Ok(Ok(v)) => format!("ok_{}", hex(&v)), Ok(Err(_)) => "E".to_string(), Err(_) => "P".to_string() } };
     let (_, spk) = identity(c.id);
     let client_pw = if c.from_hash { String::new() } else { c.pw.clone() };
-    let line = format!("cssp dom8={} usr8={} pwd8={} hash={} ra={} id={} flags={:08x} sc={} ti={} reply={} key={} dom16={} usr16={} neg={} chal={} cc={} ek={} pw16={} ud16={} cp16={} cp8={} spk={} r2obs={}",
-        hex(c.dom.as_bytes()), hex(c.user.as_bytes()), hex(c.pw.as_bytes()), c.from_hash as u8, c.ra as u8, c.id, c.flags, hex(&c.sc), hex(&c.ti), c.reply,
+    let line = format!("cssp dom8={} usr8={} pwd8={} hash={} ra={} id={} flags={:08x} sc={} ti={} reply={} reply1={} key={} dom16={} usr16={} neg={} chal={} cc={} ek={} pw16={} ud16={} cp16={} cp8={} spk={} r2obs={} r2={} r1obs={}",
+        hex(c.dom.as_bytes()), hex(c.user.as_bytes()), hex(c.pw.as_bytes()), c.from_hash as u8, c.ra as u8, c.id, c.flags, hex(&c.sc), hex(&c.ti), c.reply, if c.reply1.is_empty() { "honest" } else { &c.reply1 },
         hex(&key), hex(&utf16(&c.dom)), hex(&utf16(&c.user)), hex(&nego), hex(&chal), hex(&cc), hex(&so.k.clone().unwrap_or(vec![0; 16])),
-        hex(&utf16(&c.pw)), hex(&utf16(&(c.user.to_uppercase() + &c.dom))), hex(&utf16(&client_pw)), hex(client_pw.as_bytes()), hex(&spk), r2obs);
+        hex(&utf16(&c.pw)), hex(&utf16(&(c.user.to_uppercase() + &c.dom))), hex(&utf16(&client_pw)), hex(client_pw.as_bytes()), hex(&spk), r2obs, hex(&so.r2), r1obs);
     // implementation-side oracle
     let kind = c.reply.split(':').next().unwrap_or("").to_string();
     let same_pka = r2obs == format!("ok_{}", hex(&so.honest_pka));
-    let must_reject = match kind.as_str() { "honest" | "appendzero" | "seq" | "ver" | "withnego" => false, "flip" | "longform" => !same_pka, "off" => c.reply != "off:1", _ => true };
-    let must_accept = matches!(kind.as_str(), "honest" | "appendzero" | "ver") || (kind == "off" && c.reply == "off:1") || (kind == "flip" && same_pka);
+    let must_reject = so.faulted1 || match kind.as_str() { "honest" | "appendzero" | "seq" | "ver" | "withnego" => false, "flip" | "longform" | "ber83in" | "berindef" | "bercons" => !same_pka, "off" => c.reply != "off:1", _ => true };
+    let must_accept = !so.faulted1 && matches!(kind.as_str(), "honest" | "appendzero" | "ver") || (kind == "off" && c.reply == "off:1") || (kind == "flip" && same_pka);
     let mut obs = Obs::new(out).nt(status == "ok").tag(Box::leak(kind.clone().into_boxed_str()));
     if so.k.is_none() { obs = obs.viol(&format!("reference server could not complete the exchange: {}", so.note)); }
     else if so.client_pk_ok != Some(true) { obs = obs.viol("client pubKeyAuth does not carry the server certificate key"); }
     else if status == "P" { obs = obs.viol("panic").tag("panic"); }
+    else if status == "T" { obs = obs.viol("cssp_connect neither returned nor failed within 8 s (spin / hang)").tag("hang"); }
     else if status == "ok" && must_reject { obs = obs.viol("credentials released although the server did not prove the session key"); }
     else if status != "ok" && !so.m3.is_empty() { obs = obs.viol("bytes written after a refused proof"); }
     else if status != "ok" && must_accept { obs = obs.viol("honest proof refused"); }
@@ -156,7 +182,7 @@ pub fn run_case(toks: &[&str], em: &mut Emitter) {
     let s = |k: &str| String::from_utf8_lossy(&unhex(&get(k))).to_string();
     let mut sc = [0u8; 8]; let scv = unhex(&get("sc")); if scv.len() == 8 { sc.copy_from_slice(&scv); }
     let c = Case { dom: s("dom8"), user: s("usr8"), pw: s("pwd8"), from_hash: get("hash") == "1", ra: get("ra") == "1", id: get("id").parse().unwrap_or(1),
-        flags: u32::from_str_radix(&get("flags"), 16).unwrap_or(0), sc, ti: unhex(&get("ti")), reply: get("reply") };
+        flags: u32::from_str_radix(&get("flags"), 16).unwrap_or(0), sc, ti: unhex(&get("ti")), reply: get("reply"), reply1: get("reply1") };
     run(em, &c);
 }
 
@@ -168,7 +194,7 @@ fn base_case(r: &mut Rng, i: usize) -> Case {
     if i % 4 < 2 { flags |= 1; }
     let mut ti = av(2, &utf16("DOM")); ti.extend(av(1, &utf16("SRV"))); ti.extend(av(7, &r.bytes(8))); ti.extend(av(0, &[]));
     let scv = r.bytes(8); let mut sc = [0u8; 8]; sc.copy_from_slice(&scv);
-    Case { dom: r.pick(&["", "DOMAIN", "домен"]).to_string(), user: r.pick(&names).to_string(), pw: r.pick(&pws).to_string(), from_hash: r.chance(1, 4), ra: r.chance(1, 4), id: 1 + (i % 2), flags, sc, ti, reply: "honest".into() }
+    Case { dom: r.pick(&["", "DOMAIN", "домен"]).to_string(), user: r.pick(&names).to_string(), pw: r.pick(&pws).to_string(), from_hash: r.chance(1, 4), ra: r.chance(1, 4), id: 1 + (i % 2), flags, sc, ti, reply: "honest".into(), reply1: "honest".into() }
 }
 
 pub fn generate(thorough: bool, seed: u64, part: (usize, usize), em: &mut Emitter) {
@@ -182,7 +208,7 @@ pub fn generate(thorough: bool, seed: u64, part: (usize, usize), em: &mut Emitte
     let reps = if thorough { 6 } else { 2 };
     for i in 0..reps {
         let b = base_case(&mut r, i);
-        let mut recipes: Vec<String> = vec!["wrongkey".into(), "othercert".into(), "reflect".into(), "badsign".into(), "clientkeys".into(), "unsealed".into(), "nopka".into(), "longform".into(), "withnego".into(), "empty".into(),
+        let mut recipes: Vec<String> = vec!["wrongkey".into(), "othercert".into(), "reflect".into(), "badsign".into(), "clientkeys".into(), "unsealed".into(), "nopka".into(), "longform".into(), "ber83in".into(), "berindef".into(), "bercons".into(), "withnego".into(), "empty".into(),
             "appendzero:1".into(), "appendzero:7".into(), "seq:1".into(), "seq:4294967295".into(), "ver:3".into(), "ver:6".into(), "off:1".into(),
             "raw:00".into(), "raw:3000".into(), "raw:300ca003020102a305040300010203".into(), format!("raw:{}", hex(&r.bytes(40)))];
         for o in offs { recipes.push(format!("off:{}", o)); }
